@@ -20,7 +20,7 @@ CONFIG = {
                          'folding.compared': 6000, 'renumbered.compared': 1200, 'dicts.compared': 800, 'history.steps': 1200}},
     'thorough': {'shards': 16, 'budget_s': 1800, 'n_mols': 4200, 'n_params': 40, 'k_renum': 10,
                  'floors': {'evaluations': 300000, 'distinct_nontrivial': 50000, 'linear.compared': 80000, 'morgan.compared': 80000,
-                            'folding.compared': 120000, 'renumbered.compared': 25000, 'dicts.compared': 6000, 'history.steps': 6000}},
+                            'folding.compared': 120000, 'renumbered.compared': 25000, 'dicts.compared': 4000, 'history.steps': 6000}},
 }
 
 
